@@ -3,6 +3,7 @@
 #include "vrt.hpp"
 
 #include <unifex/inplace_stop_token.hpp>
+#include <unifex/fused_stop_source.hpp>
 
 #include <nlohmann/json.hpp>
 
@@ -13,9 +14,9 @@
 using namespace unifex;
 using json = nlohmann::json;
 
-struct Op { char k; int c; };                 // 'r' reg, 'd' dereg, 'q' request_stop
+struct Op { char k; int c; };                 // 'r' reg, 'd' dereg, 'q' request_stop, 'u' request_stop on upstream c
 using Prog = std::vector<Op>;
-struct Scenario { int id; Prog prog[4]; Prog body[4]; };
+struct Scenario { int id; std::string kind; Prog prog[4]; Prog body[4]; };
 
 static Prog parseProg(const json& j) {
   Prog p;
@@ -23,28 +24,55 @@ static Prog parseProg(const json& j) {
     std::string k = o[0].get<std::string>();
     if (k == "reg") p.push_back({'r', o[1].get<int>()});
     else if (k == "dereg") p.push_back({'d', o[1].get<int>()});
+    else if (k == "up") p.push_back({'u', o[1].get<int>()});
     else p.push_back({'q', 0});
   }
   return p;
 }
 
+// a stop token type that is not inplace_stop_token, so that inplace_stop_token_adapter really adapts
+struct CustomTok {
+  unifex::inplace_stop_token t;
+  template <class F> struct callback_type {
+    unifex::inplace_stop_callback<F> cb;
+    template <class F2> callback_type(CustomTok tok, F2&& f) : cb(tok.t, (F2&&)f) {}
+  };
+  bool stop_requested() const noexcept { return t.stop_requested(); }
+  bool stop_possible() const noexcept { return t.stop_possible(); }
+};
+using Fused = unifex::fused_stop_source<unifex::inplace_stop_token, unifex::inplace_stop_token>;
+
 struct World;
 struct Body { World* w; int c; void operator()() noexcept; };
 struct World {
   const Scenario* scn;
-  inplace_stop_source src;
+  inplace_stop_source src;                       // kind "plain": the monitored source itself
+  inplace_stop_source up[3]; bool upCalled[3] = {};                     // upstream sources of the fused source / the adapted token
+  std::unique_ptr<Fused> fused;                  // kind "fused"
+  std::unique_ptr<unifex::inplace_stop_token_adapter<CustomTok>> adapter;   // kind "adapter"
+  inplace_stop_token adapted;
+  void setup() {
+    if (scn->kind == "fused") { fused = std::make_unique<Fused>(); fused->register_callbacks(up[1].get_token(), up[2].get_token()); }
+    else if (scn->kind == "adapter") { adapter = std::make_unique<unifex::inplace_stop_token_adapter<CustomTok>>(); adapted = adapter->subscribe(CustomTok{up[1].get_token()}); }
+  }
+  void teardown() {
+    if (fused) fused->deregister_callbacks();
+    if (adapter) adapter->unsubscribe();
+  }
+  inplace_stop_token token() { return fused ? fused->get_token() : (adapter ? adapted : src.get_token()); }
+  bool stopRequested() { return token().stop_requested(); }
   inplace_stop_callback<Body>* cb[4] = {};
   bool constructing[4] = {};
   int exec[4] = {};
   int retFalse = 0, retTrue = 0;
-  void query() { vrt::ev("{\"e\":\"Query\",\"c\":0,\"t\":%d,\"r\":%d}", vrt::self_id(), src.stop_requested() ? 1 : 0); }
+  void query() { vrt::ev("{\"e\":\"Query\",\"c\":0,\"t\":%d,\"r\":%d}", vrt::self_id(), stopRequested() ? 1 : 0); }
   void run(const Prog& p) {
     for (auto op : p) {
       if (op.k == 'r') {
         UNIFEX_VERIF_YIELD("r0");
         vrt::ev("{\"e\":\"RegBegin\",\"c\":%d,\"t\":%d,\"r\":-1}", op.c, vrt::self_id());
         constructing[op.c] = true;
-        auto* p2 = new inplace_stop_callback<Body>(src.get_token(), Body{this, op.c});
+        auto* p2 = new inplace_stop_callback<Body>(token(), Body{this, op.c});
         cb[op.c] = p2; constructing[op.c] = false;
         vrt::ev("{\"e\":\"RegEnd\",\"c\":%d,\"t\":%d,\"r\":-1}", op.c, vrt::self_id());
       } else if (op.k == 'd') {
@@ -55,10 +83,19 @@ struct World {
         auto* p2 = cb[op.c]; cb[op.c] = nullptr;
         delete p2;
         vrt::ev("{\"e\":\"DeregEnd\",\"c\":%d,\"t\":%d,\"r\":-1}", op.c, vrt::self_id());
+      } else if (op.k == 'u') {
+        UNIFEX_VERIF_YIELD("q0");
+        // only the first request_stop() on an upstream source runs its forwarding callback; a later call returns at
+        // once - possibly before the first caller has forwarded the request - and says nothing about this source
+        bool first = !upCalled[op.c]; upCalled[op.c] = true;
+        if (first) vrt::ev("{\"e\":\"ReqBegin\",\"c\":0,\"t\":%d,\"r\":-1}", vrt::self_id());
+        (void)up[op.c].request_stop();          // forwarded to the monitored source by the library's callback
+        if (first) vrt::ev("{\"e\":\"ReqEnd\",\"c\":0,\"t\":%d,\"r\":-1}", vrt::self_id());
+        query();
       } else {
         UNIFEX_VERIF_YIELD("q0");
         vrt::ev("{\"e\":\"ReqBegin\",\"c\":0,\"t\":%d,\"r\":-1}", vrt::self_id());
-        bool r = src.request_stop();
+        bool r = fused ? fused->request_stop() : src.request_stop();
         vrt::ev("{\"e\":\"ReqEnd\",\"c\":0,\"t\":%d,\"r\":%d}", vrt::self_id(), r ? 1 : 0);
         (r ? retTrue : retFalse)++;
         query();
@@ -86,7 +123,7 @@ int main(int argc, char** argv) {
   std::string mode = a.str("mode", "guided");
   std::vector<Scenario> scns;
   { std::ifstream f(a.str("scenarios")); json j; f >> j;
-    for (auto& s : j) { Scenario sc; sc.id = s["id"].get<int>();
+    for (auto& s : j) { Scenario sc; sc.id = s["id"].get<int>(); sc.kind = s.value("kind", std::string("plain"));
       for (int t = 1; t <= 3; ++t) { sc.prog[t] = parseProg(s["prog"][t - 1]); sc.body[t] = parseProg(s["body"][t - 1]); }
       scns.push_back(sc); } }
   std::map<int, const Scenario*> byId; for (auto& s : scns) byId[s.id] = &s;
@@ -98,8 +135,8 @@ int main(int argc, char** argv) {
 
   auto runOne = [&](const Scenario& sc, long x, long k, const std::function<vrt::RunResult(vrt::Ctl&)>& drive,
                     const json* expect) {
-    vrt::ev("{\"e\":\"Reset\",\"c\":0,\"t\":0,\"r\":-1,\"x\":%ld,\"k\":%ld,\"scn\":%d}", x, k, sc.id);
-    auto w = std::make_unique<World>(); w->scn = &sc;
+    vrt::ev("{\"e\":\"Reset\",\"c\":0,\"t\":0,\"r\":-1,\"x\":%ld,\"k\":%ld,\"scn\":%d,\"fused\":%d}", x, k, sc.id, sc.kind == "plain" ? 0 : 1);
+    auto w = std::make_unique<World>(); w->scn = &sc; w->setup();
     vrt::RunResult rr;
     {
       vrt::Ctl c; c.accept = {"stop.", "spin_wait", "r0", "d0", "q0"};
@@ -117,6 +154,7 @@ int main(int argc, char** argv) {
     }
     w->query();
     for (int i = 1; i <= 3; ++i) { delete w->cb[i]; w->cb[i] = nullptr; }
+    w->teardown();
     ++execs; steps += (long)rr.steps.size(); drift += rr.drift ? 1 : 0; unguided += rr.unguided;
     if (rr.drift && firstDrift.empty()) firstDrift = "unit " + std::to_string(x) + ": " + rr.firstDrift;
     distinctSched.insert(std::to_string(sc.id) + ":" + vrt::sched_json(rr));
